@@ -762,3 +762,28 @@ M('herm-compute-restarts-from-step-one', 'C01', 'factorization-resumed-at-its-ow
   [('HermEigsBase.h', 'm_fac.factorize_from((std::max)(Index(1), m_fac.subspace_dim()), m_ncv, m_nmatop);', 'm_fac.factorize_from(1, m_ncv, m_nmatop);')], 'reverts fix F11')
 M('gen-compute-restarts-from-step-one', 'C02', 'factorization-resumed-at-its-own-dimension',
   [('GenEigsBase.h', 'm_fac.factorize_from((std::max)(Index(1), m_fac.subspace_dim()), m_ncv, m_nmatop);', 'm_fac.factorize_from(1, m_ncv, m_nmatop);')], 'reverts fix F11')
+
+# ----------------------------------------------------------------------------- C13 reflector-size invariant (array content)
+M('ds-reflector-size-three-for-two-row-reflector', 'C13', 'pointer-kernel-contracts',
+  [(D, 'nr[ind] = (x3m < m_near_0) ? 2 : 3;', 'nr[ind] = (x3m < m_near_0) ? 3 : 3;')], 'a size-3 reflector recorded for the last-but-one column: apply_PX(vector) reads y[n]')
+M('ds-last-reflector-with-third-entry', 'C13', 'pointer-kernel-contracts',
+  [(D, 'compute_reflector(m_mat_H.coeff(iu - 1, iu - 2), m_mat_H.coeff(iu, iu - 2), 0, iu - 1);', 'compute_reflector(m_mat_H.coeff(iu - 1, iu - 2), m_mat_H.coeff(iu, iu - 2), m_mat_H.coeff(iu, iu - 1), iu - 1);')], 'may record size 3 at column iu - 1')
+M('ds-vector-apply-ignores-size-one', 'C13', 'pointer-kernel-contracts',
+  [(D, '''        const Index nr = m_ref_nr.coeff(u_ind);
+        if (nr == 1)
+            return;
+
+        const Scalar u0 = m_ref_u.coeff(0, u_ind),
+                     u1 = m_ref_u.coeff(1, u_ind),
+                     u2 = m_ref_u.coeff(2, u_ind);''', '''        const Index nr = m_ref_nr.coeff(u_ind);
+
+        const Scalar u0 = m_ref_u.coeff(0, u_ind),
+                     u1 = m_ref_u.coeff(1, u_ind),
+                     u2 = m_ref_u.coeff(2, u_ind);''')], 'reads y[u_ind + 1] for the last column, whose reflector has size 1')
+M('ds-block-tail-size-not-recorded', 'C13', 'reflector-size-written-for-every-column',
+  [(D, '''        apply_XP(m_mat_H.block(0, iu - 1, il + bsize, 2), m_n, iu - 1);
+
+        m_ref_nr.coeffRef(iu) = 1;''', '''        apply_XP(m_mat_H.block(0, iu - 1, il + bsize, 2), m_n, iu - 1);
+''')], 'the size of the last column of a block is left uninitialised')
+M('ds-chase-loop-stops-one-early', 'C13', 'reflector-size-written-for-every-column',
+  [(D, 'for (Index i = 1; i < bsize - 2; i++)', 'for (Index i = 1; i < bsize - 3; i++)')], 'column iu - 2 gets no reflector and no size')
